@@ -878,6 +878,35 @@ def install(E):
         return Seq([deref(E, v, mem, guard) if isinstance(v, Ref) and it.kind in ('copied', 'cloned') else v for p, v in its], None, None, pres=[simp(p) for p, v in its])
     reg(r' as Iterator>::collect::<(?:std::vec::|alloc::vec::)?Vec<', h_collect_vec)
 
+    def compact_items(E, its, guard):
+        """`next()` on a materialised list steps through SLOTS and stops at the first absent one, which is right only
+        when presence is prefix-shaped (slot i+1 present => slot i present).  A filter / filter_map / chain can leave
+        holes: re-index so that slot j holds the j-th PRESENT item (present iff at least j+1 items are)."""
+        its = [(simp(p), v) for p, v in its if simp(p) is not False]
+        if all(p is True for p, v in its):
+            return its
+        shaped = True
+        for i in range(len(its) - 1):
+            hole = simp(And(guard, zbool(its[i + 1][0]), Not(zbool(its[i][0]))))
+            if hole is not False and E.reachable(hole):
+                shaped = False
+                break
+        if shaped:
+            return its
+        n = len(its)
+        # before[i] = number of present items among its[0..i)
+        before = [0]
+        for p, v in its:
+            before.append(before[-1] + If(zbool(p), 1, 0))
+        out = []
+        for j in range(n):
+            val = None
+            for i in range(n - 1, j - 1, -1):
+                here = simp(And(zbool(its[i][0]), before[i] == j))
+                val = its[i][1] if val is None else E.merge(here, its[i][1], val)
+            out.append((simp(before[n] >= j + 1), val))
+        return out
+
     def h_iter_next(E, m, func, argv, guard, mem, dty, caller):
         r = argv[0]
         if not isinstance(r, Ref):
@@ -907,7 +936,7 @@ def install(E):
             return mk_opt(E, pres, I(lo, ty))
         if it.kind in ('copied', 'cloned', 'enumerate', 'rev', 'map', 'filter', 'filter_map', 'chain', 'zip'):
             # general adaptors: materialise the remaining items once, then step through them
-            its = items(E, it, guard, mem)
+            its = compact_items(E, items(E, it, guard, mem), guard)
             mem[r.cell] = E.write_path(mem[r.cell], r.path, It('list', extra=(its, 0)), mem, guard, 'next')
             return h_iter_next(E, m, func, argv, guard, mem, dty, caller)
         if it.kind == 'list':
@@ -1015,7 +1044,7 @@ def install(E):
 
     def h_vec_new(E, m, func, argv, guard, mem, dty, caller):
         return Seq([], 0, m.group(1))
-    reg(r'^(?:std::vec::|alloc::vec::)?Vec::<(?!u8>)(.*)>::new$', h_vec_new)
+    reg(r'^(?:std::vec::|alloc::vec::)?Vec::<(?!u8>)(.*)>::(?:new|with_capacity)$', h_vec_new)
 
     def h_index(E, m, func, argv, guard, mem, dty, caller):
         r, s = seq_ref(E, argv[0], mem, guard)
